@@ -37,6 +37,11 @@ LAYOUTS = [
     {"pfile": "src/pkg/__init__.py", "ufile": "docs/notes.md", "vp": "vYYYY.BUILD[-TAG]", "cur": "v2020.1001-beta",
      "args": ["--date", "2021-02-03"]},
     {"pfile": "README.md", "ufile": "src/other.py", "vp": "MAJOR.MINOR[.PATCH]", "cur": "1.2", "args": ["--minor"]},
+    # the config may spell the path differently from what git prints (./x, a//b); it is still the same file
+    {"pfile": "a.txt", "cfg_spelling": "./a.txt", "ufile": "other.txt", "vp": "MAJOR.MINOR.PATCH", "cur": "1.2.3",
+     "args": ["--patch"]},
+    {"pfile": "src/pkg/version.py", "cfg_spelling": "./src//pkg/version.py", "ufile": "docs/notes.md",
+     "vp": "MAJOR.MINOR.PATCH", "cur": "0.9.9", "args": ["--minor"]},
 ]
 
 
@@ -46,6 +51,9 @@ def cases(ctx):
     for rep in range(reps):
         for li in range(len(LAYOUTS)):
             if rep > 0 and li != rep % len(LAYOUTS):
+                continue
+            if rep == 0 and li in (1, 2) and ctx.quick:
+                # quick: the full product on layouts 0, 3, 4; layouts 1, 2 only in thorough
                 continue
             for st in STATUSES:
                 for role in ROLES:
@@ -114,7 +122,7 @@ def run_case(ctx, case):
     ucontent = "unrelated\n"
     cfg = (f'[bumpver]\ncurrent_version = "{lay["cur"]}"\nversion_pattern = "{lay["vp"]}"\ncommit = true\ntag = false\n'
            f'push = false\n\n[bumpver.file_patterns]\n"bumpver.toml" = [\'current_version = "{{version}}"\']\n'
-           f'"{pfile}" = ["version {{version}}"]\n')
+           f'"{lay.get("cfg_spelling", pfile)}" = ["version {{version}}"]\n')
     d = harness.new_dir("g")
     try:
         git(d, "init", "-q", "-b", "main")
